@@ -1,10 +1,20 @@
 #!/usr/bin/env python3
-"""apply every seeded mutation to /repo in turn, run the quick check(s) of its property (plus listed extras), undo,
-and record the outcome in seeded/<id>/meta.json and seeded/RESULTS.md.   usage: run_seeded.py [ids...]"""
+"""apply every seeded mutation in turn to a SCRATCH worktree of /repo (never /repo itself; the checks run in experiment
+mode: VERIF_REPO / VERIF_WORK, evidence under the scratch work dir), run the quick check(s) of its property (plus listed
+extras), undo, and record the outcome in seeded/<id>/meta.json and seeded/RESULTS.md.
+usage: SEEDED_WT=/tmp/wseed SEEDED_WK=/tmp/vseed run_seeded.py [ids...]   (the worktree is created if missing)"""
 import json, os, subprocess, sys, time, glob
 V = '/verif'
+CODE = os.environ.get('SEEDED_CODE', V)      # a frozen copy of the checking code may be used so that the matrix is not disturbed by edits
+WT = os.environ.get('SEEDED_WT', '/tmp/wseed')
+WK = os.environ.get('SEEDED_WK', '/tmp/vseed')
+if not os.path.isdir(WT):
+    subprocess.run(['git', '-C', '/repo', 'worktree', 'add', '--detach', WT, 'HEAD'], check=True)
+os.makedirs(WK, exist_ok=True)
+ENV = dict(os.environ, VERIF_REPO=WT, VERIF_WORK=WK)
 EXTRA = {'C01-1': ['C01'], 'C02-2': ['C17'], 'C04-2': ['C06'], 'C05-2': ['C20'], 'C08-1': ['C20'], 'C08-2': ['C20'], 'C10-2': ['C18'], 'C12-1': ['C02', 'C03'],
-         'C13-2': ['C13'], 'C15-1': ['C14'], 'C15-2': ['C13'], 'C16-2': ['C10'], 'C19-2': ['C02'], 'C20-1': ['C08', 'C20'], 'C20-2': ['C15', 'C20'], 'C03-1': ['C01']}
+         'C13-2': ['C13'], 'C15-1': ['C14'], 'C15-2': ['C13'], 'C16-2': ['C10'], 'C19-2': ['C02'], 'C20-1': ['C08', 'C20'], 'C20-2': ['C15', 'C20'], 'C03-1': ['C01'],
+         'C04-3': ['C06'], 'C10-3': ['C02'], 'C12-3': ['C11'], 'C20-3': ['C08'], 'C02-3': ['C17'], 'C15-3': ['C14'], 'C20-4': ['C02']}
 ids = sys.argv[1:] or sorted(os.path.basename(d) for d in glob.glob(f'{V}/seeded/C*-*'))
 rows = []
 for sid in ids:
@@ -12,8 +22,8 @@ for sid in ids:
     meta = json.load(open(f'{d}/meta.json'))
     prop = meta['property']
     checks = [prop] + [c for c in EXTRA.get(sid, []) if c != prop]
-    assert subprocess.run(['git', '-C', '/repo', 'status', '--short', '--untracked-files=no'], capture_output=True, text=True).stdout.strip() == '', 'repo dirty'
-    ap = subprocess.run(['git', '-C', '/repo', 'apply', f'{d}/patch.diff'], capture_output=True, text=True)
+    assert subprocess.run(['git', '-C', WT, 'status', '--short', '--untracked-files=no'], capture_output=True, text=True).stdout.strip() == '', 'repo dirty'
+    ap = subprocess.run(['git', '-C', WT, 'apply', f'{d}/patch.diff'], capture_output=True, text=True)
     if ap.returncode != 0:
         meta['detected_by'] = {'_patch': 'does not apply to the current (repaired) tree: ' + ap.stderr[:200]}
         json.dump(meta, open(f'{d}/meta.json', 'w'), indent=1); rows.append((sid, 'patch does not apply', '')); continue
@@ -21,20 +31,22 @@ for sid in ids:
     try:
         for c in checks:
             t0 = time.time()
-            p = subprocess.run(['./check', c, '--tier', 'quick'], cwd=V, capture_output=True, text=True, timeout=3600)
+            p = subprocess.run(['./check', c, '--tier', 'quick'], cwd=CODE, capture_output=True, text=True, timeout=3600, env=ENV)
             out = p.stdout
             first = next((l for l in out.splitlines() if l.startswith('counterexample')), '')
             det[c] = {'exit': p.returncode, 'verdict': {0: 'MISSED (check passed)', 1: 'DETECTED (VIOLATION, replayed natively)', 2: 'UNDECIDED (exit 2: no verdict)'}.get(p.returncode, str(p.returncode)),
                       'seconds': round(time.time() - t0), 'first_counterexample': first[:400]}
     finally:
-        subprocess.run(['git', '-C', '/repo', 'checkout', '--', '.'])
+        subprocess.run(['git', '-C', WT, 'checkout', '--', '.'])
     meta['detected_by'] = det
     meta['checked_at_repo_commit'] = subprocess.run(['git', '-C', '/repo', 'log', '--format=%h', '-1'], capture_output=True, text=True).stdout.strip()
     json.dump(meta, open(f'{d}/meta.json', 'w'), indent=1)
     rows.append((sid, '; '.join(f"{c}: {v['verdict'].split(' ')[0]} ({v['seconds']}s)" for c, v in det.items()), next((v['first_counterexample'] for v in det.values() if v['exit'] == 1), '')[:160]))
     print(rows[-1], flush=True)
+if sys.argv[1:]:
+    print('partial run: RESULTS.md not rewritten'); sys.exit(0)
 with open(f'{V}/seeded/RESULTS.md', 'w') as f:
-    f.write('# Seeded mutations vs. quick checks\n\nEach row: a confirmed property-breaking change (fresh sub-agent, property text only) applied to /repo, the quick check(s) run, the patch undone.\n\n| mutation | verdicts | first counterexample |\n|---|---|---|\n')
+    f.write('# Seeded mutations vs. quick checks\n\nEach row: a confirmed property-breaking change (fresh sub-agent, property text only) applied to a scratch worktree of /repo, the quick check(s) run against it, the patch undone.\n\n| mutation | verdicts | first counterexample |\n|---|---|---|\n')
     for r in rows:
         f.write(f"| {r[0]} | {r[1]} | {r[2].replace('|', '/')} |\n")
 print('done')
